@@ -42,6 +42,12 @@ func runC02(p *Prog, r *Report) {
 	}
 	r.Min("C02.R6", 1+2+2)
 	checkDirectConnections(p, r)
+	// R7: the address the exclusion stage approved is the address that is probed: the generators hand over
+	// addresses and requests whose storage they never write again (no ring / scratch reuse)
+	r.Min("C02.R7", 5)
+	checkHandOverFreshness(p, r, "C02.R7", func(fn *ssa.Function) bool {
+		return fn.Pkg == p.SPkg("pkg/scan") || fn.Pkg == p.SPkg("pkg/scan/arp")
+	})
 }
 
 // checkDirectConnections (R6): the application probes open their TCP connection to the target itself.
